@@ -8,8 +8,8 @@
 //!     model of the columns and of `query/filters.rs`);
 //!   * finder (implementation alone): per document, the real decision vs the documented semantics
 //!     evaluated on the JSON tree by the harness's own oracle `spec_eval` (no model involved).
-//! The driver also returns `Spec.passes`; wherever the hypotheses of `flatten_sound_partial` hold
-//! (`single`, `plain`) the two model results must coincide (an instance check of the theorem).
+//! The driver also returns `Spec.passes`; wherever the hypothesis of `flatten_sound` holds
+//! (`plain_inside`) the two model results must coincide (an instance check of the theorem).
 use super::c15::{gen_schema, gen_valid_doc, LeafS, NestedS, PropS, SchemaOpts, SchemaS, K, KWS};
 use crate::idx;
 use crate::proto::Driver;
@@ -631,7 +631,8 @@ impl Prop for C08 {
       let col: Vec<bool> = m["col"].as_array().map(|a| a.iter().map(|b| b.as_bool().unwrap_or(false)).collect()).unwrap_or_default();
       let spec_m: Vec<bool> = m["spec"].as_array().map(|a| a.iter().map(|b| b.as_bool().unwrap_or(false)).collect()).unwrap_or_default();
       let single: Vec<bool> = m["single"].as_array().map(|a| a.iter().map(|b| b.as_bool().unwrap_or(false)).collect()).unwrap_or_default();
-      let plain = m["plain"].as_bool().unwrap_or(false);
+      let plain_inside = m["plain_inside"].as_bool().unwrap_or(false);
+      let legacy_col: Vec<bool> = m["legacy_col"].as_array().map(|a| a.iter().map(|b| b.as_bool().unwrap_or(false)).collect()).unwrap_or_default();
       if col.len() != docs.len() || spec_m.len() != docs.len() || single.len() != docs.len() {
         s.disagree("driver-shape", &json!({"schema": schema_json, "docs": docs, "filters": [f]}), json!(real_pass), m.clone());
         continue;
@@ -640,9 +641,13 @@ impl Prop for C08 {
         if col[k] != real_pass[k] {
           s.disagree("Col.passes∘flatten", &small(d), json!({"passes": real_pass[k]}), json!({"col": col[k], "spec": spec_m[k], "single": single[k]}));
         }
-        // instance of flatten_sound_partial (model vs model): must never fail
-        if single[k] && plain && col[k] != spec_m[k] {
-          s.disagree("theorem-instance flatten_sound_partial", &small(d), json!({"passes": real_pass[k]}), json!({"col": col[k], "spec": spec_m[k]}));
+        // instance of flatten_sound (model vs model): must never fail
+        if plain_inside && col[k] != spec_m[k] {
+          s.disagree("theorem-instance flatten_sound", &small(d), json!({"passes": real_pass[k]}), json!({"col": col[k], "spec": spec_m[k]}));
+        }
+        // what the columns written before the repair a2fc693 would have answered
+        if legacy_col.get(k).copied().unwrap_or(col[k]) != col[k] {
+          s.count("decisions:differ-from-legacy-columns");
         }
         if single[k] == multi[k] {
           s.disagree("singleCarrier-vs-oracle", &small(d), json!({"several_parents": multi[k]}), json!({"single": single[k]}));
